@@ -4,6 +4,7 @@ import (
 	"fmt"
 	"go/token"
 	"go/types"
+	"math/big"
 	"sort"
 	"strings"
 
@@ -14,6 +15,10 @@ import (
 type Val interface{}
 
 type Tuple []Val
+
+// FuncSet: one of several function values (paths merged); a call through it
+// checks every alternative and then havocs.
+type FuncSet struct{ Alts []*FuncVal }
 
 type FuncVal struct {
 	Fn       *ssa.Function
@@ -92,6 +97,7 @@ type VC struct {
 	absStr   bool
 	wrap     bool
 	noNil    bool
+	noSafety bool
 
 	cmds      []string
 	constSort map[string]string
@@ -124,6 +130,7 @@ type VC struct {
 	usedContracts map[string]bool
 	constOf   map[string]string
 	ghostOut  Tuple
+	ghostRange map[string][2]string
 	paramConsts []string
 }
 
@@ -132,6 +139,7 @@ func newVC(eng *Engine, fn *ssa.Function, c *Contract) *VC {
 		anon: map[string]int{}, lits: map[string]string{}, heapSort: map[string]string{}, heapType: map[string]types.Type{},
 		oblCount: map[string]int{}, trusted: map[string]bool{}, havoced: map[string]bool{}, inlined: map[string]bool{},
 		typeTags: map[string]int{}, globalIds: map[*ssa.Global]int{}, written: map[string]bool{}, ghost: map[string]*Term{}, usedContracts: map[string]bool{}, constOf: map[string]string{}}
+	vc.ghostRange = map[string][2]string{}
 	vc.mode = "int"
 	pkg := ""
 	if c != nil {
@@ -143,6 +151,10 @@ func newVC(eng *Engine, fn *ssa.Function, c *Contract) *VC {
 		}
 		vc.wrap = c.Arith == "wrap"
 		vc.noNil = c.NoNil || eng.cs.pragma(pkg, "nilchecks") == "off"
+		vc.noSafety = c.NoSafety
+		if c.NoSafety {
+			vc.noNil = true
+		}
 	}
 	if eng.cs.pragma(pkg, "strings") == "ordered" {
 		vc.absStr = true
@@ -155,6 +167,12 @@ func newVC(eng *Engine, fn *ssa.Function, c *Contract) *VC {
 func (vc *VC) oblige(st *State, kind, goal, desc string, pos token.Pos, top bool) *Obligation {
 	if vc.suppress > 0 || st.dead {
 		return nil
+	}
+	if vc.noSafety {
+		switch kind {
+		case "bounds", "bounds.slice", "bounds.make", "nil", "overflow", "div0", "shift", "typeassert", "nilmap":
+			return nil // contract says "nosafety": only permission/functional obligations are generated
+		}
 	}
 	if goal == "true" {
 		// trivially discharged; still count it (cheap) so vacuity stats are honest
@@ -239,6 +257,14 @@ type epochAlt struct {
 // typedHeapAxiom: every value stored in a fresh (unconstrained) heap version
 // satisfies the typing invariant of its Go type.
 func (vc *VC) typedHeapAxiom(name, version string) {
+	if r, ok := vc.ghostRange[name]; ok {
+		lo, _ := new(big.Int).SetString(r[0], 10)
+		hi, _ := new(big.Int).SetString(r[1], 10)
+		if lo != nil && hi != nil {
+			v := "(select " + version + " nil)"
+			vc.assume(and(vc.le(vc.bigLit(lo, 64), v, true), vc.lt(v, vc.bigLit(hi, 64), true)))
+		}
+	}
 	t := vc.heapType[name]
 	if t == nil {
 		return
@@ -278,11 +304,22 @@ func (vc *VC) havocHeapVar(st *State, name string) {
 }
 
 func (vc *VC) havocAll(st *State) {
+	// ghost variables are specification state: code without a contract cannot change them
+	ghosts := map[string]string{}
+	for _, h := range vc.heapVars {
+		if strings.HasPrefix(h, "G_") {
+			ghosts[h] = vc.heapGet(st, h)
+		}
+	}
 	vc.nepoch++
 	st.epoch = vc.nepoch
 	st.alts = nil
 	st.heap = map[string]string{}
 	for _, h := range vc.heapVars {
+		if g, ok := ghosts[h]; ok {
+			st.heap[h] = g
+			continue
+		}
 		vc.written[h] = true
 	}
 	a := vc.fresh("alloc")
@@ -649,6 +686,20 @@ func (vc *VC) mergeVal(conds []string, vals []Val) (Val, bool) {
 			out[k] = m
 		}
 		return out, true
+	case *FuncVal, *FuncSet:
+		// different function values on different paths: keep the set
+		fs := &FuncSet{}
+		for _, v := range vals {
+			switch x := v.(type) {
+			case *FuncVal:
+				fs.Alts = append(fs.Alts, x)
+			case *FuncSet:
+				fs.Alts = append(fs.Alts, x.Alts...)
+			default:
+				return nil, false
+			}
+		}
+		return fs, true
 	case *Loc:
 		// merge locations that differ only in ref / index terms
 		var refs []Val
